@@ -3,18 +3,31 @@ package control
 // C02 correspondence harness (real-build variant: no dae_stub_ebpf tag, synthetic bpf2go file).
 //
 // Generated routing sections (C01's generator, c01_test.go) go through the real parser, config.New,
-// the optimizer chain and the real RoutingMatcherBuilder.  Before BuildUserspace releases them, the
-// typed array (b.compiledRules), the LPM sets (b.simulatedLpmTries) and the byte image (b.rules) are
-// captured.  The kernel side of one reload is then produced by the PRODUCTION functions
-// reserveLpmRingSlots, cidrToBpfLpmKey, rewriteKernRulesWithRingLpmIndex (the map updates themselves
-// need a kernel: their order is mirrored from buildRoutingKernspace / ReplaceLpmIndices) and written
-// to the op stream as raw memory images.  Every packet is evaluated by the real RoutingMatcher.Match;
-// the same op file is afterwards fed to the native C driver (real route()) and to the Lean driver.
+// the production optimizer chain and the real RoutingMatcherBuilder.  The kernel side of every reload
+// is produced by the PRODUCTION code on REAL kernel maps (bpf(2) is available in the sandbox):
+// routing_map / routing_meta_map (ARRAY), lpm_array_map (ARRAY_OF_MAPS of LPM_TRIE), domain_routing_map
+// (HASH) are created with ebpf.NewMap, and one reload is
 //
-// Streams: c02 (main), c02f6 (replay of the pname('') / unknown-process witness).
+//   even generations: snapshot := b.KernspaceSnapshot(); b.BuildUserspace(); snapshot.BuildKernspace(log, bpf)
+//                     (= buildRoutingKernspace: reserveLpmRingSlots, cidrToBpfLpmKey, newLpmMap,
+//                     LpmArrayMap.Update, rewriteKernRulesWithRingLpmIndex, BpfMapBatchUpdate, meta);
+//                     core.lpmTrieIndices = …; clearReloadDomainRoutingMap(bpf);
+//                     newPlane.InheritLpmIndices(oldPlane.EjectLpmIndices())   — the order of
+//                     CommitPreparedDatapath + the reload handler (CommitPreparedDatapath itself needs a netns)
+//   odd generations:  ControlPlane.RebuildReloadDatapath()  (BuildKernspace, ReplaceLpmIndices, clear)
+//
+// After each reload the kernel maps are READ BACK (array lookups, NewMapFromID + iteration of every
+// changed inner trie, iteration of the domain map) and the difference to what the drivers hold is
+// written to the op stream as raw memory images; `instcheck` then asks the Lean driver whether the
+// dumped maps satisfy the theorems' hypothesis `Installed`.  Domain bitmaps are written per packet with
+// the production BpfMapBatchUpdate / BpfMapBatchDelete.  Every packet is evaluated by the real
+// RoutingMatcher.Match; the same op file is afterwards fed to the native C driver (real route()) and
+// to the Lean driver.
+//
+// Streams: c02 (main), c02f6 (empty-process-name replay), c02big (overlapping generations of 600 tries,
+// programs of exactly 1024 / 1025 match sets), c02err (kernel error paths, hand-written maps).
 
 import (
-	"github.com/daeuniverse/dae/common/assets"
 	"encoding/hex"
 	"fmt"
 	"net/netip"
@@ -25,6 +38,9 @@ import (
 	"testing"
 	"unsafe"
 
+	"github.com/cilium/ebpf"
+	"github.com/daeuniverse/dae/common"
+	"github.com/daeuniverse/dae/common/assets"
 	"github.com/daeuniverse/dae/common/consts"
 	"github.com/daeuniverse/dae/component/routing"
 	"github.com/daeuniverse/dae/config"
@@ -67,20 +83,144 @@ func c02LpmKeyTok(k *_bpfLpmKey) string {
 	return fmt.Sprintf("%d:%s", k.PrefixLen, hex.EncodeToString(data))
 }
 
+const c02MaxLpmNum = 1024 + 8 // MAX_LPM_NUM (compared with the C constant on every run)
+
 type c02Kern struct {
-	st        *VStream
-	stats     *VStats
-	curSlots  map[uint32]struct{} // lpm_array_map slots of the active generation (core.lpmTrieIndices)
-	domKeys   map[[16]byte]struct{}
+	st    *VStream
+	stats *VStats
+	log   *logrus.Logger
+	bpf   *bpfObjects
+	plane *ControlPlane // the live generation
+	gen   int
+	// what the drivers hold (= last dump of the kernel maps)
+	shRules   [][24]byte
+	shMeta    int64
+	shSlots   map[uint32]uint32 // slot -> inner map id
+	shDom     map[[16]byte]string
 	goViol    []string
 	maxSets   int
 	maxTries  int
-	ringWraps int
+	lastSlots map[uint32]struct{}
 }
 
-// one reload: mirrors buildRoutingKernspace (LPM slots, then rules, then meta), then
-// ReplaceLpmIndices (delete superseded slots) and clearReloadDomainRoutingMap.
-func (k *c02Kern) install(rules []bpfMatchSet, compiled []compiledRoutingMatch, tries [][]netip.Prefix) bool {
+func c02NewKern(name string, stats *VStats, log *logrus.Logger) *c02Kern {
+	k := &c02Kern{st: VOpenStream(name), stats: stats, log: log, shMeta: -1,
+		shSlots: map[uint32]uint32{}, shDom: map[[16]byte]string{}, lastSlots: map[uint32]struct{}{}}
+	k.shRules = make([][24]byte, consts.MaxMatchSetLen)
+	must := func(m *ebpf.Map, err error) *ebpf.Map {
+		if err != nil {
+			panic(fmt.Sprintf("c02: cannot create a kernel BPF map (bpf(2) unavailable?): %v", err))
+		}
+		return m
+	}
+	// specs as declared in control/kern/tproxy.c (sizes are cross-checked through the const ops)
+	inner := &ebpf.MapSpec{Type: ebpf.LPMTrie, KeySize: uint32(unsafe.Sizeof(_bpfLpmKey{})), ValueSize: 4, MaxEntries: 2048000, Flags: 1 /* BPF_F_NO_PREALLOC */}
+	k.bpf = &bpfObjects{}
+	k.bpf.UnusedLpmType = must(ebpf.NewMap(inner))
+	k.bpf.LpmArrayMap = must(ebpf.NewMap(&ebpf.MapSpec{Type: ebpf.ArrayOfMaps, KeySize: 4, ValueSize: 4, MaxEntries: c02MaxLpmNum, InnerMap: inner}))
+	k.bpf.RoutingMap = must(ebpf.NewMap(&ebpf.MapSpec{Type: ebpf.Array, KeySize: 4, ValueSize: uint32(unsafe.Sizeof(bpfMatchSet{})), MaxEntries: uint32(consts.MaxMatchSetLen)}))
+	k.bpf.RoutingMetaMap = must(ebpf.NewMap(&ebpf.MapSpec{Type: ebpf.Array, KeySize: 4, ValueSize: 4, MaxEntries: 1}))
+	k.bpf.DomainRoutingMap = must(ebpf.NewMap(&ebpf.MapSpec{Type: ebpf.Hash, KeySize: 16, ValueSize: uint32(unsafe.Sizeof(bpfDomainRouting{})), MaxEntries: 65536, Flags: 1}))
+	return k
+}
+
+func (k *c02Kern) close() {
+	k.st.Close()
+	for _, m := range []*ebpf.Map{k.bpf.UnusedLpmType, k.bpf.LpmArrayMap, k.bpf.RoutingMap, k.bpf.RoutingMetaMap, k.bpf.DomainRoutingMap} {
+		_ = m.Close()
+	}
+}
+
+// sync reads the real kernel maps back and emits the difference to what the drivers hold.
+func (k *c02Kern) sync() {
+	// lpm_array_map: slot -> inner trie
+	for s := uint32(0); s < c02MaxLpmNum; s++ {
+		var id uint32
+		if err := k.bpf.LpmArrayMap.Lookup(s, &id); err != nil {
+			if _, had := k.shSlots[s]; had {
+				k.st.Emit(fmt.Sprintf("lpmdel %d", s), "ok")
+				delete(k.shSlots, s)
+			}
+			continue
+		}
+		if old, had := k.shSlots[s]; had && old == id {
+			continue
+		}
+		im, err := ebpf.NewMapFromID(ebpf.MapID(id))
+		if err != nil {
+			k.goViol = append(k.goViol, fmt.Sprintf("cannot open inner LPM map of slot %d: %v", s, err))
+			continue
+		}
+		var keys []string
+		var key _bpfLpmKey
+		var val uint32
+		it := im.Iterate()
+		for it.Next(&key, &val) {
+			kk := key
+			keys = append(keys, c02LpmKeyTok(&kk))
+		}
+		if it.Err() != nil {
+			k.goViol = append(k.goViol, fmt.Sprintf("iterating inner LPM map of slot %d: %v", s, it.Err()))
+		}
+		_ = im.Close()
+		sort.Strings(keys)
+		k.st.Emit(fmt.Sprintf("lpm %d %d %s", s, len(keys), strings.Join(keys, " ")), "ok")
+		k.shSlots[s] = id
+	}
+	// routing_map
+	var upd []string
+	for i := 0; i < consts.MaxMatchSetLen; i++ {
+		var ms bpfMatchSet
+		if err := k.bpf.RoutingMap.Lookup(uint32(i), &ms); err != nil {
+			k.goViol = append(k.goViol, fmt.Sprintf("routing_map[%d]: %v", i, err))
+			break
+		}
+		img := *(*[24]byte)(unsafe.Pointer(&ms))
+		if img != k.shRules[i] {
+			k.shRules[i] = img
+			upd = append(upd, fmt.Sprintf("%d:%s", i, hex.EncodeToString(img[:])))
+		}
+	}
+	if len(upd) > 0 {
+		k.st.Emit(fmt.Sprintf("rset %d %s", len(upd), strings.Join(upd, " ")), "ok")
+	}
+	var n uint32
+	if err := k.bpf.RoutingMetaMap.Lookup(uint32(0), &n); err == nil && int64(n) != k.shMeta {
+		k.shMeta = int64(n)
+		k.st.Emit(fmt.Sprintf("meta %d", n), "ok")
+	}
+	// domain_routing_map
+	cur := map[[16]byte]string{}
+	var dk [16]byte
+	var dv bpfDomainRouting
+	it := k.bpf.DomainRoutingMap.Iterate()
+	for it.Next(&dk, &dv) {
+		cur[dk] = hex.EncodeToString(unsafe.Slice((*byte)(unsafe.Pointer(&dv.Bitmap[0])), unsafe.Sizeof(dv.Bitmap)))
+	}
+	var ks []string
+	for a := range k.shDom {
+		if _, ok := cur[a]; !ok {
+			ks = append(ks, hex.EncodeToString(a[:]))
+		}
+	}
+	sort.Strings(ks)
+	for _, a := range ks {
+		k.st.Emit("domdel "+a, "ok")
+	}
+	ks = ks[:0]
+	for a, img := range cur {
+		if k.shDom[a] != img {
+			ks = append(ks, hex.EncodeToString(a[:])+" "+img)
+		}
+	}
+	sort.Strings(ks)
+	for _, l := range ks {
+		k.st.Emit("dom "+l, "ok")
+	}
+	k.shDom = cur
+}
+
+func (k *c02Kern) emitTyped(compiled []compiledRoutingMatch, tries [][]netip.Prefix) {
 	toks := make([]string, len(compiled))
 	for i := range compiled {
 		toks[i] = c02EntryTok(compiled[i])
@@ -95,82 +235,137 @@ func (k *c02Kern) install(rules []bpfMatchSet, compiled []compiledRoutingMatch, 
 		}
 	}
 	k.st.Emit(tb.String(), "ok")
+}
 
+type c02Gen struct {
+	plane    *ControlPlane
+	compiled []compiledRoutingMatch
+	tries    [][]netip.Prefix
+	start    uint32
+}
+
+// reload runs one production reload of builder b on the real kernel maps. It returns the userspace
+// matcher, or nil when the control plane rejected the program (the previous generation is then
+// restored with its own RebuildReloadDatapath, as the reload handler does).
+func (k *c02Kern) reload(b *RoutingMatcherBuilder, cur **c02Gen) (*RoutingMatcher, string) {
+	rules := append([]bpfMatchSet(nil), b.rules...)
+	if len(rules) > consts.MaxMatchSetLen {
+		// fix 51cbe59: such a program must be a build error before any map is touched
+		k.goViol = append(k.goViol, fmt.Sprintf("the builder accepted a program of %d > %d match sets: BuildUserspace builds a matcher for it while "+
+			"buildRoutingKernspace fails in BpfMapBatchUpdate after overwriting routing_map and the LPM slots (old active length stays)", len(rules), consts.MaxMatchSetLen))
+	}
+	compiled := append([]compiledRoutingMatch(nil), b.compiledRules...)
+	tries := make([][]netip.Prefix, len(b.simulatedLpmTries))
+	for i := range tries {
+		tries[i] = append([]netip.Prefix(nil), b.simulatedLpmTries[i]...)
+	}
 	// the builder's typed array must be what compileRoutingMatch decodes from its byte image
+	// (only the fields Match reads are compared)
 	if dec, err := compileRoutingMatches(rules); err != nil {
 		k.goViol = append(k.goViol, "compileRoutingMatches(b.rules): "+err.Error())
+	} else if len(dec) != len(compiled) {
+		k.goViol = append(k.goViol, "len(compiledRules) != len(rules)")
 	} else {
 		for i := range dec {
-			if i >= len(compiled) || dec[i] != compiled[i] {
-				k.goViol = append(k.goViol, fmt.Sprintf("compiledRules[%d] != compileRoutingMatch(rules[%d]): %+v vs %+v", i, i, compiled, dec[i]))
+			if c02EntryTok(dec[i]) != c02EntryTok(compiled[i]) {
+				k.goViol = append(k.goViol, fmt.Sprintf("compiledRules[%d] != compileRoutingMatch(rules[%d]): %s vs %s", i, i, c02EntryTok(compiled[i]), c02EntryTok(dec[i])))
 				break
 			}
 		}
-		if len(dec) != len(compiled) {
-			k.goViol = append(k.goViol, "len(compiledRules) != len(rules)")
+	}
+	// production order of a staged reload: snapshot, userspace matcher, (later) kernel commit
+	snap := b.KernspaceSnapshot()
+	var matcher *RoutingMatcher
+	bres := VRecover(func() string {
+		m, err := b.BuildUserspace()
+		if err != nil {
+			return "err:build:" + err.Error()
 		}
+		matcher = m
+		return "ok"
+	})
+	if matcher == nil {
+		return nil, bres
 	}
-
-	lpmCount := uint32(len(tries))
-	before := globalNextLpmIndex.Load()
-	start, err := reserveLpmRingSlots(lpmCount)
-	if err != nil {
-		k.stats.Inc("ring.reserve_error")
-		return false
+	k.emitTyped(compiled, tries)
+	start := globalNextLpmIndex.Load()
+	k.st.Emit(fmt.Sprintf("reserve %d %d", len(tries), start), "ok")
+	plane := &ControlPlane{log: k.log, routingKernspaceSnapshot: snap, sharedBpfReload: true}
+	plane.connStateJanitorStarted.Store(true)
+	var err error
+	mode := "commit+inherit"
+	res := VRecover(func() string {
+		if k.plane == nil || k.gen%2 == 0 {
+			core := &controlPlaneCore{log: k.log}
+			core.bpf.Store(k.bpf)
+			plane.core = core
+			var idx []uint32
+			if idx, err = snap.BuildKernspace(k.log, core.bpf.Load()); err != nil {
+				return "err"
+			}
+			core.lpmTrieIndices = idx
+			if err = clearReloadDomainRoutingMap(core.bpf.Load()); err != nil {
+				return "err"
+			}
+			if k.plane != nil {
+				plane.InheritLpmIndices(k.plane.EjectLpmIndices())
+			}
+		} else {
+			mode = "rebuild"
+			plane.core = k.plane.core
+			if err = plane.RebuildReloadDatapath(); err != nil {
+				return "err"
+			}
+		}
+		return "ok"
+	})
+	k.gen++
+	if res != "ok" {
+		k.stats.Inc("reload.rejected_by_kernel_path")
+		k.stats.Sample(fmt.Sprintf("kernel install rejected (%d match sets, %d tries): %v %s", len(rules), len(tries), err, res))
+		k.sync()
+		// restore the previous generation like the reload handler does
+		if k.plane != nil && *cur != nil {
+			g := *cur
+			k.emitTyped(g.compiled, g.tries)
+			st2 := globalNextLpmIndex.Load()
+			k.st.Emit(fmt.Sprintf("reserve %d %d", len(g.tries), st2), "ok")
+			if e := k.plane.RebuildReloadDatapath(); e != nil {
+				k.goViol = append(k.goViol, "RebuildReloadDatapath of the previous generation failed: "+e.Error())
+			} else {
+				k.sync()
+				k.st.Emit("instcheck", "ok")
+				k.stats.Inc("reload.previous_generation_restored")
+			}
+		}
+		return nil, "err:kernel:" + fmt.Sprint(err) + res
 	}
-	k.st.Emit(fmt.Sprintf("reserve %d %d", lpmCount, start), "ok")
-	if globalNextLpmIndex.Load() < before {
-		k.ringWraps++
+	k.stats.Inc("reload." + mode)
+	if uint32(len(tries)) > 0 && (start+uint32(len(tries))) > uint32(consts.MaxMatchSetLen) {
 		k.stats.Inc("ring.wraps")
 	}
+	// slots shared by consecutive generations (possible only when their sizes add up to > 1024)
 	newSlots := map[uint32]struct{}{}
-	for i, cidrs := range tries {
-		slot := (start + uint32(i)) % uint32(consts.MaxMatchSetLen)
-		var sb strings.Builder
-		fmt.Fprintf(&sb, "lpm %d %d %d", i, slot, len(cidrs))
-		for _, c := range cidrs {
-			key := cidrToBpfLpmKey(c)
-			sb.WriteString(" " + c02LpmKeyTok(&key))
-		}
-		k.st.Emit(sb.String(), "ok")
-		newSlots[slot] = struct{}{}
+	for _, s := range plane.core.lpmTrieIndices {
+		newSlots[s] = struct{}{}
 	}
-	kernRules, err := rewriteKernRulesWithRingLpmIndex(rules, start, lpmCount)
-	if err != nil {
-		k.goViol = append(k.goViol, "rewriteKernRulesWithRingLpmIndex: "+err.Error())
-		return false
-	}
-	var rb strings.Builder
-	fmt.Fprintf(&rb, "rules %d", len(kernRules))
-	for i := range kernRules {
-		rb.WriteString(" " + c02MatchSetImage(&kernRules[i]))
-	}
-	k.st.Emit(rb.String(), "ok")
-	k.st.Emit(fmt.Sprintf("meta %d", len(kernRules)), "ok")
-	// ReplaceLpmIndices → InheritLpmIndices(old): superseded slots not reused are deleted
-	var old []uint32
-	for s := range k.curSlots {
-		if _, reused := newSlots[s]; !reused {
-			old = append(old, s)
-		} else {
-			k.stats.Inc("ring.slot_reused_across_generations")
+	reused := 0
+	for s := range newSlots {
+		if _, ok := k.lastSlots[s]; ok {
+			reused++
 		}
 	}
-	sort.Slice(old, func(i, j int) bool { return old[i] < old[j] })
-	for _, s := range old {
-		k.st.Emit(fmt.Sprintf("lpmdel %d", s), "ok")
+	if reused > 0 {
+		k.stats.Add("ring.slot_reused_across_generations", reused)
 	}
-	k.curSlots = newSlots
-	// clearReloadDomainRoutingMap
-	var dk []string
-	for a := range k.domKeys {
-		dk = append(dk, hex.EncodeToString(a[:]))
+	k.lastSlots = newSlots
+	k.sync()
+	if len(k.shDom) != 0 {
+		k.goViol = append(k.goViol, fmt.Sprintf("domain_routing_map still holds %d addresses of the previous generation after the reload (mode %s)", len(k.shDom), mode))
 	}
-	sort.Strings(dk)
-	for _, a := range dk {
-		k.st.Emit("domdel "+a, "ok")
-	}
-	k.domKeys = map[[16]byte]struct{}{}
+	k.st.Emit("instcheck", "ok")
+	k.plane = plane
+	*cur = &c02Gen{plane: plane, compiled: compiled, tries: tries, start: start}
 	if len(rules) > k.maxSets {
 		k.maxSets = len(rules)
 	}
@@ -179,7 +374,7 @@ func (k *c02Kern) install(rules []bpfMatchSet, compiled []compiledRoutingMatch, 
 	}
 	k.stats.Add("matchsets", len(rules))
 	k.stats.Add("lpm_tries", len(tries))
-	return true
+	return matcher, "ok"
 }
 
 type c02Variant struct {
@@ -213,8 +408,21 @@ func (k *c02Kern) packet(m *RoutingMatcher, pk c01Pkt, v c02Variant, ipver const
 		}
 		copy(dr.Bitmap[:], bm)
 		img := hex.EncodeToString(unsafe.Slice((*byte)(unsafe.Pointer(&dr.Bitmap[0])), unsafe.Sizeof(dr.Bitmap)))
-		k.st.Emit("dom "+hex.EncodeToString(dst16[:])+" "+img, "ok")
-		k.domKeys[dst16] = struct{}{}
+		if k.shDom[dst16] != img {
+			// the writer of domain_routing_tracker.syncOwner: native-word key, production batch update
+			if _, err := BpfMapBatchUpdate(k.bpf.DomainRoutingMap, [][4]uint32{common.Ipv6ByteSliceToUint32Array(dst16[:])},
+				[]bpfDomainRouting{dr}, &ebpf.BatchOptions{ElemFlags: uint64(ebpf.UpdateAny)}); err != nil {
+				k.goViol = append(k.goViol, "update domain_routing_map: "+err.Error())
+				return
+			}
+			var back bpfDomainRouting
+			if err := k.bpf.DomainRoutingMap.Lookup(dst16, &back); err != nil || back != dr {
+				k.goViol = append(k.goViol, fmt.Sprintf("domain_routing_map does not hold the bitmap under the destination's 16 bytes: %v", err))
+				return
+			}
+			k.st.Emit("dom "+hex.EncodeToString(dst16[:])+" "+img, "ok")
+			k.shDom[dst16] = img
+		}
 		ubm = img
 		nz := false
 		for _, w := range bm {
@@ -228,9 +436,14 @@ func (k *c02Kern) packet(m *RoutingMatcher, pk c01Pkt, v c02Variant, ipver const
 			k.stats.Inc("pkt.domain_bitmap_zero")
 		}
 	} else {
-		if _, ok := k.domKeys[dst16]; ok {
+		if _, ok := k.shDom[dst16]; ok {
+			// the DNS cache entry expired: the tracker deletes the address
+			if _, err := BpfMapBatchDelete(k.bpf.DomainRoutingMap, [][4]uint32{common.Ipv6ByteSliceToUint32Array(dst16[:])}); err != nil {
+				k.goViol = append(k.goViol, "delete from domain_routing_map: "+err.Error())
+				return
+			}
 			k.st.Emit("domdel "+hex.EncodeToString(dst16[:]), "ok")
-			delete(k.domKeys, dst16)
+			delete(k.shDom, dst16)
 		}
 		k.stats.Inc("pkt.no_domain")
 	}
@@ -357,6 +570,59 @@ func c02Variants(r *VRand, pk c01Pkt) []c02Variant {
 	return vs
 }
 
+func c02Stat(stats *VStats, compiled []compiledRoutingMatch) {
+	for _, c := range compiled {
+		stats.Inc(fmt.Sprintf("set.type%d", c.matchType))
+		if c.not {
+			stats.Inc("set.not")
+		}
+		switch c.outbound {
+		case consts.OutboundLogicalOr:
+			stats.Inc("set.tail_or")
+		case consts.OutboundLogicalAnd:
+			stats.Inc("set.tail_and")
+		case consts.OutboundMustRules:
+			stats.Inc("set.tail_must_rules")
+		default:
+			stats.Inc("set.tail_final")
+		}
+	}
+}
+
+func c02IpVer(a netip.Addr) consts.IpVersionType {
+	if a.Is4() {
+		return consts.IpVersion_4
+	}
+	return consts.IpVersion_6
+}
+
+// handwritten program text: n single-set rules `sip(172.x.y.z) -> gA|gB` (outbounds alternate so that
+// the rule merger keeps them apart: one LPM trie each), optional domain rule, fallback.
+func c02SipProgram(n int, salt byte, tail string) (string, []netip.Addr) {
+	var sb strings.Builder
+	var addrs []netip.Addr
+	sb.WriteString("global {}\nrouting {\n")
+	for i := 0; i < n; i++ {
+		a := netip.AddrFrom4([4]byte{172, salt, byte(i >> 8), byte(i)})
+		addrs = append(addrs, a)
+		fmt.Fprintf(&sb, "  sip(%s) -> g%d\n", a, 2+i%2)
+	}
+	sb.WriteString(tail)
+	sb.WriteString("  fallback: g7\n}\n")
+	return sb.String(), addrs
+}
+
+func c02PortProgram(n int, tail string) string {
+	var sb strings.Builder
+	sb.WriteString("global {}\nrouting {\n")
+	for i := 0; i < n; i++ {
+		fmt.Fprintf(&sb, "  dport(%d) -> g%d\n", 2000+i, 2+i%2)
+	}
+	sb.WriteString(tail)
+	sb.WriteString("  fallback: g7\n}\n")
+	return sb.String()
+}
+
 func TestVerifC02(t *testing.T) {
 	r := NewVRand(VSeed())
 	stats := NewVStats()
@@ -366,14 +632,10 @@ func TestVerifC02(t *testing.T) {
 	for i, n := range c01Outs {
 		name2id[n] = uint8(i)
 	}
-	// more outbound ids: up to 251 (user-defined maximum)
-	c01OutsSaved := c01Outs
-	defer func() { c01Outs = c01OutsSaved }()
-	c01Outs = append(append([]string{}, c01Outs...), "g100", "g200", "g251")
-	name2id["g100"], name2id["g200"], name2id["g251"] = 100, 200, 251
+	var allViol []string
 
 	// ---------------------------------------------------------------- main stream
-	k := &c02Kern{st: VOpenStream("c02"), stats: stats, curSlots: map[uint32]struct{}{}, domKeys: map[[16]byte]struct{}{}}
+	k := c02NewKern("c02", stats, log)
 	for _, c := range c02ConstNames {
 		ans := "-"
 		if c.v >= 0 {
@@ -389,6 +651,7 @@ func TestVerifC02(t *testing.T) {
 	if VThorough() {
 		nProg, nPkt, maxRules = 2500, 50, 40
 	}
+	var cur *c02Gen
 	for pi := 0; pi < nProg; pi++ {
 		mr := maxRules
 		switch {
@@ -397,7 +660,7 @@ func TestVerifC02(t *testing.T) {
 		case pi%25 == 7:
 			mr = 160 // long programs: match-set indices beyond the first bitmap words
 		}
-		giant := pi%100 == 50 // close to MAX_MATCH_SET_LEN: high bitmap words, long scans
+		giant := pi%100 == 50 // around MAX_MATCH_SET_LEN: high bitmap words, long scans, sometimes too long
 		if giant {
 			mr = 340
 		}
@@ -405,95 +668,64 @@ func TestVerifC02(t *testing.T) {
 		if pi < 2 {
 			stats.Sample(p.text)
 		}
-		b, res := c02Build(log, p.text, name2id)
-		for giant && b == nil && mr > 100 { // too many match sets is a build error: shrink until it fits
+		var matcher *RoutingMatcher
+		res := ""
+		for try := 0; ; try++ {
+			var b *RoutingMatcherBuilder
+			b, res = c02Build(log, p.text, name2id)
+			if b != nil {
+				if len(b.rules) > consts.MaxMatchSetLen {
+					stats.Inc("prog.longer_than_max_accepted_by_builder")
+				}
+				matcher, res = k.reload(b, &cur)
+			}
+			if matcher != nil || !giant || mr <= 100 {
+				break
+			}
+			// a program that does not fit is rejected (by the builder, by BuildUserspace or by the kernel
+			// install): shrink until it fits
 			stats.Inc("prog.giant_rejected_as_too_long")
 			mr -= 40
 			p = c01GenProg(r, stats, mr)
-			b, res = c02Build(log, p.text, name2id)
 		}
-		if giant && b != nil {
-			stats.Inc("prog.giant")
-		}
-		if b == nil {
+		if matcher == nil {
 			stats.Inc("prog.build_failed")
 			stats.Sample("build failed: " + res)
 			continue
 		}
-		rules := append([]bpfMatchSet(nil), b.rules...)
-		compiled := append([]compiledRoutingMatch(nil), b.compiledRules...)
-		tries := make([][]netip.Prefix, len(b.simulatedLpmTries))
-		for i := range tries {
-			tries[i] = append([]netip.Prefix(nil), b.simulatedLpmTries[i]...)
-		}
-		var matcher *RoutingMatcher
-		bres := VRecover(func() string {
-			m, err := b.BuildUserspace()
-			if err != nil {
-				return "err:build:" + err.Error()
-			}
-			matcher = m
-			return "ok"
-		})
-		if matcher == nil {
-			stats.Inc("prog.build_failed")
-			stats.Sample("build failed: " + bres)
-			continue
-		}
-		if !k.install(rules, compiled, tries) {
-			stats.Inc("prog.install_failed")
-			continue
+		if giant {
+			stats.Inc("prog.giant")
 		}
 		stats.Inc("prog.installed")
-		for _, c := range compiled {
-			stats.Inc(fmt.Sprintf("set.type%d", c.matchType))
-			if c.not {
-				stats.Inc("set.not")
-			}
-			switch c.outbound {
-			case consts.OutboundLogicalOr:
-				stats.Inc("set.tail_or")
-			case consts.OutboundLogicalAnd:
-				stats.Inc("set.tail_and")
-			case consts.OutboundMustRules:
-				stats.Inc("set.tail_must_rules")
-			default:
-				stats.Inc("set.tail_final")
-			}
-		}
+		c02Stat(stats, cur.compiled)
 		np := nPkt
-		if len(rules) > 300 {
+		if len(cur.compiled) > 300 {
 			np = nPkt / 2
 		}
 		for q := 0; q < np; q++ {
 			pk := c01GenPkt(r, p, stats)
-			ipver := consts.IpVersion_6
-			if pk.dst.Is4() {
-				ipver = consts.IpVersion_4
-			}
 			for _, v := range c02Variants(r, pk) {
-				k.packet(matcher, pk, v, ipver)
+				k.packet(matcher, pk, v, c02IpVer(pk.dst))
 			}
 		}
 	}
 	stats.Add("ops", k.st.N)
 	stats.Add("max_matchsets_in_a_program", k.maxSets)
 	stats.Add("max_lpm_tries_in_a_program", k.maxTries)
-	k.st.Close()
+	allViol = append(allViol, k.goViol...)
+	k.close()
 
 	// ---------------------------------------------------------------- empty-process-name replay (former finding #6, fix C02.fix1)
-	f := &c02Kern{st: VOpenStream("c02f6"), stats: NewVStats(), curSlots: map[uint32]struct{}{}, domKeys: map[[16]byte]struct{}{}}
+	f := c02NewKern("c02f6", NewVStats(), log)
 	f.st.Emit(fmt.Sprintf("ringset %d", globalNextLpmIndex.Load()), "ok")
 	f6text := "global {}\nrouting {\n  pname('') -> block\n  fallback: direct\n}\n"
 	b, res := c02Build(log, f6text, name2id)
 	f6note := res
 	if b != nil {
-		rules := append([]bpfMatchSet(nil), b.rules...)
-		compiled := append([]compiledRoutingMatch(nil), b.compiledRules...)
-		m, err := b.BuildUserspace()
-		if err != nil {
-			f6note = "err:build:" + err.Error()
-		} else if f.install(rules, compiled, nil) {
+		var fcur *c02Gen
+		m, res2 := f.reload(b, &fcur)
+		f6note = res2
+		if m != nil {
 			pk := c01Pkt{src: netip.MustParseAddr("192.168.1.2"), dst: netip.MustParseAddr("1.2.3.4"), sport: 40000, dport: 443, l4: consts.L4ProtoType_TCP}
 			copy(pk.pname[:], "curl")
 			// WAN, process unknown (the witness); WAN, process known; LAN
@@ -502,10 +734,134 @@ func TestVerifC02(t *testing.T) {
 			f.packet(m, pk, c02Variant{l4: pk.l4, wan: false, dport: 443, hasPn: false, hasMac: true}, consts.IpVersion_4)
 		}
 	}
-	f.st.Close()
+	allViol = append(allViol, f.goViol...)
+	f.close()
 	_ = os.WriteFile(filepath.Join(VOutDir(), "c02f6.note"), []byte(f6note+"\n"), 0o644)
 
-	viol := append(k.goViol, f.goViol...)
-	_ = os.WriteFile(filepath.Join(VOutDir(), "c02.goviol"), []byte(strings.Join(viol, "\n")), 0o644)
+	// ---------------------------------------------------------------- boundary stream
+	// overlapping generations (600 + 600 LPM tries > 1024: the second generation reuses ring slots of the
+	// first, InheritLpmIndices must skip them), a small one after, exactly MAX_MATCH_SET_LEN match sets
+	// with a domain set at the last non-fallback index, and MAX_MATCH_SET_LEN + 1 (must be rejected).
+	g := c02NewKern("c02big", stats, log)
+	g.st.Emit(fmt.Sprintf("ringset %d", globalNextLpmIndex.Load()), "ok")
+	var gcur *c02Gen
+	bigNote := []string{}
+	sendSip := func(m *RoutingMatcher, addrs []netip.Addr, domain string) {
+		for _, i := range []int{0, 1, len(addrs) / 2, len(addrs) - 2, len(addrs) - 1} {
+			if i < 0 || i >= len(addrs) {
+				continue
+			}
+			pk := c01Pkt{src: addrs[i], dst: netip.MustParseAddr("93.184.216.34"), sport: 40000 + uint16(i), dport: 443, l4: consts.L4ProtoType_TCP, domain: domain}
+			g.packet(m, pk, c02Variant{l4: pk.l4, wan: false, dport: 443, hasMac: true}, consts.IpVersion_4)
+			pk.src = netip.MustParseAddr("172.99.0.1") // in no set: fallback
+			g.packet(m, pk, c02Variant{l4: consts.L4ProtoType_UDP, wan: true, dport: 53, hasPn: true}, consts.IpVersion_4)
+		}
+	}
+	for round, salt := range []byte{16, 17, 18} {
+		n := 600
+		if round == 2 {
+			n = 3
+		}
+		text, addrs := c02SipProgram(n, salt, "")
+		bb, res := c02Build(log, text, name2id)
+		if bb == nil {
+			bigNote = append(bigNote, fmt.Sprintf("overlap round %d: %s", round, res))
+			continue
+		}
+		nt := len(bb.simulatedLpmTries)
+		m, res := g.reload(bb, &gcur)
+		bigNote = append(bigNote, fmt.Sprintf("overlap round %d: tries=%d %s", round, nt, res))
+		if m != nil {
+			stats.Inc("big.overlap_generation_installed")
+			sendSip(m, addrs, "")
+		}
+	}
+	// exactly 1024 match sets: 1022 port sets, one domain set (index 1022), fallback (index 1023)
+	for _, total := range []int{consts.MaxMatchSetLen, consts.MaxMatchSetLen + 1} {
+		text := c02PortProgram(total-2, "  domain(full: last.example.test) -> block\n")
+		bb, res := c02Build(log, text, name2id)
+		if bb == nil {
+			bigNote = append(bigNote, fmt.Sprintf("program of %d match sets: builder: %s", total, res))
+			if total > consts.MaxMatchSetLen {
+				stats.Inc("big.over_limit_rejected")
+			}
+			continue
+		}
+		nsets := len(bb.rules)
+		m, res := g.reload(bb, &gcur)
+		bigNote = append(bigNote, fmt.Sprintf("program of %d match sets (builder emitted %d): %s", total, nsets, res))
+		if m == nil {
+			if nsets > consts.MaxMatchSetLen {
+				stats.Inc("big.over_limit_rejected")
+			}
+			continue
+		}
+		if nsets > consts.MaxMatchSetLen {
+			g.goViol = append(g.goViol, fmt.Sprintf("a program of %d > %d match sets was installed", nsets, consts.MaxMatchSetLen))
+			continue
+		}
+		if nsets == consts.MaxMatchSetLen {
+			stats.Inc("big.exactly_max_installed")
+		}
+		for _, dom := range []string{"last.example.test", "other.example.test", ""} {
+			for _, dport := range []uint16{443, 2000, uint16(2000 + total - 3), 53} {
+				pk := c01Pkt{src: netip.MustParseAddr("10.0.0.1"), dst: netip.MustParseAddr("93.184.216.34"), sport: 1234, dport: dport, l4: consts.L4ProtoType_TCP, domain: dom}
+				g.packet(m, pk, c02Variant{l4: pk.l4, wan: false, dport: dport, hasMac: true}, consts.IpVersion_4)
+			}
+		}
+	}
+	allViol = append(allViol, g.goViol...)
+	g.close()
+	_ = os.WriteFile(filepath.Join(VOutDir(), "c02big.note"), []byte(strings.Join(bigNote, "\n")+"\n"), 0o644)
+
+	// ---------------------------------------------------------------- kernel error paths (hand-written maps, kernel vs model only)
+	e := VOpenStream("c02err")
+	img := func(ms bpfMatchSet) string { return c02MatchSetImage(&ms) }
+	flagOf := func(l4, ipv uint32) string {
+		var flag [8]uint32
+		flag[0], flag[1] = l4, ipv
+		return hex.EncodeToString(unsafe.Slice((*byte)(unsafe.Pointer(&flag[0])), 32))
+	}
+	a1, a2 := netip.MustParseAddr("10.0.0.1").As16(), netip.MustParseAddr("10.0.0.2").As16()
+	kp := func(dport int) {
+		e.Emit(fmt.Sprintf("kpkt %s 1000 %d %s %s %s", flagOf(1, 1), dport, hex.EncodeToString(a1[:]), hex.EncodeToString(a2[:]), strings.Repeat("00", 16)), "-")
+	}
+	port80 := bpfMatchSet{Type: uint8(consts.MatchType_Port), Outbound: 1, Value: bpfPortRange{PortStart: 80, PortEnd: 80}.Encode()}
+	fb := bpfMatchSet{Type: uint8(consts.MatchType_Fallback), Outbound: 2}
+	ipset := func(idx uint32) bpfMatchSet {
+		ms := bpfMatchSet{Type: uint8(consts.MatchType_IpSet), Outbound: 1}
+		*(*uint32)(unsafe.Pointer(&ms.Value[0])) = idx
+		return ms
+	}
+	// nothing installed: active length 0
+	kp(80)
+	// no fallback, no hit: -EPERM ("no match set hit")
+	e.Emit("rset 1 0:"+img(port80), "ok")
+	e.Emit("meta 1", "ok")
+	kp(80)
+	kp(81)
+	// unknown match type (Upstream = 12 is a DNS-routing type): -EINVAL inside, error outside
+	e.Emit("rset 2 0:"+img(bpfMatchSet{Type: uint8(consts.MatchType_Upstream), Outbound: 1})+" 1:"+img(fb), "ok")
+	e.Emit("meta 2", "ok")
+	kp(80)
+	// LPM slot never installed / outside lpm_array_map
+	e.Emit("rset 2 0:"+img(ipset(5))+" 1:"+img(fb), "ok")
+	kp(80)
+	e.Emit("rset 1 0:"+img(ipset(c02MaxLpmNum)), "ok")
+	kp(80)
+	e.Emit("rset 1 0:"+img(ipset(0xffffffff)), "ok")
+	kp(80)
+	// active length above MAX_MATCH_SET_LEN is clamped; a fallback at the last index is still reached
+	e.Emit(fmt.Sprintf("rset 2 0:%s %d:%s", img(port80), consts.MaxMatchSetLen-1, img(fb)), "ok")
+	e.Emit("meta 5000", "ok")
+	kp(80)
+	kp(81)
+	e.Emit(fmt.Sprintf("meta %d", consts.MaxMatchSetLen), "ok")
+	kp(81)
+	e.Emit(fmt.Sprintf("meta %d", consts.MaxMatchSetLen-1), "ok")
+	kp(81)
+	e.Close()
+
+	_ = os.WriteFile(filepath.Join(VOutDir(), "c02.goviol"), []byte(strings.Join(allViol, "\n")), 0o644)
 	stats.Write("c02")
 }
